@@ -264,12 +264,6 @@ var keyPool = []string{"", "a", "b", "aa", "ab", "abc", "abd", "b", "ba", "z", "
 	"ucanto/message@7.0.0", "execute", "report", "é", "ü", "日本", "\x00", "\xff", "\xfe\xff", "a\x00", "aaaaaaaaaaaaaaaaaaaaaaa",
 	"aaaaaaaaaaaaaaaaaaaaaaaa", "aaaaaaaaaaaaaaaaaaaaaaab", "link", "bytes", "x", "y", "xy", "yx", "xx"}
 
-func randBytes(r *rand.Rand, n int) []byte {
-	b := make([]byte, n)
-	r.Read(b)
-	return b
-}
-
 func randLen(r *rand.Rand) int {
 	switch r.Intn(20) {
 	case 0:
@@ -554,8 +548,6 @@ func cborHeadN(major byte, n uint64, width int) []byte {
 		return b
 	}
 }
-
-func cat(parts ...[]byte) []byte { return bytes.Join(parts, nil) }
 
 // handWritten: structured adversarial inputs, each exercising one acceptance rule of the decoder.
 func handWrittenDecodeInputs(r *rand.Rand) map[string][][]byte {
